@@ -400,17 +400,17 @@ Section Index.
   Variable K : consts.
 
   Lemma index_names_in : forall cfg be n,
-    In n (index_names matches cfg be) -> In n (map fst (be_registry be)) /\ exposed matches cfg n.
+    In n (index_names matches K cfg be) -> In n (map fst (be_registry be)) /\ exposed matches cfg n.
   Proof.
     intros cfg be n H. unfold index_names in H. apply sort_texts_in in H. apply firstn_in' in H.
     apply filter_In in H. destruct H as [H1 H2]. split; [exact H1|]. apply exposedb_iff. exact H2.
   Qed.
 
-  Lemma index_names_bound : forall cfg be, (length (index_names matches cfg be) <= 10)%nat.
+  Lemma index_names_bound : forall cfg be, (length (index_names matches K cfg be) <= k_index_limit K)%nat.
   Proof. intros. unfold index_names. rewrite sort_texts_length. apply firstn_le_length. Qed.
 
   Lemma homepage_actions : forall cfg be a,
-    In a (snd (homepage matches cfg be)) -> index_action matches cfg be a.
+    In a (snd (homepage matches K cfg be)) -> index_action matches cfg be a.
   Proof.
     intros cfg be a H. unfold homepage in H. unfold index_action.
     destruct (be_ns_ok be); simpl in H.
